@@ -180,3 +180,109 @@ def run(facts, rep):
                           'div_round: %s at `%s`; for primitive integers the intermediate overflows (panic or silent wrap) although the rounded quotient is representable' % (r['bad'], r['src']),
                           where='%s:%d' % (b.file, r['line']))
     rep.floor('E15 arithmetic operations of div_round proved', len(results), 5)
+
+
+def check_nearest(facts, rep):
+    """V1 (C15, "nearest-integer division returns the exactly rounded quotient"): the decision tree of the generic
+    DivRound::div_round - its path conditions and results are terms over a / q (truncating), a % q, is_negative, is_zero,
+    negation, +, -, <=, == - is folded over the grid a in -9..9, q in -7..7 \\ {0} (every sign pattern, |a| < |q| and
+    |a| >= |q|, exact halves): on the one path whose conditions hold the result r must satisfy 2|a - r*q| <= |q|, with
+    r moved away from zero on an exact half. No arithmetic of the repository is executed: the terms are evaluated with
+    the integers' own meaning of the seven operations."""
+    bs = facts.find(FN)
+    if len(bs) != 1:
+        rep.indet('E15.V1: generic div_round not found')
+        return
+    b = bs[0]
+    rep.saw(b)
+    inst = 'DivRound for T: Integer|result is the nearest integer to a / q on the grid -9..9 x -7..7'
+
+    class Stuck(Exception):
+        pass
+
+    def tdiv(x, y):
+        q_ = abs(x) // abs(y)
+        return q_ if (x >= 0) == (y >= 0) else -q_
+
+    def ev(t, a, q):
+        t = strip(t)
+        if t == ('arg', 1):
+            return a
+        if t == ('arg', 2):
+            return q
+        if t[0] == 'const':
+            return int(t[1])
+        if t[0] == 'bin' and t[1] in ('Eq', 'Ne', 'Lt', 'Le', 'Gt', 'Ge') and len(t) == 4:
+            x, y = ev(t[2], a, q), ev(t[3], a, q)
+            return int({'Eq': x == y, 'Ne': x != y, 'Lt': x < y, 'Le': x <= y, 'Gt': x > y, 'Ge': x >= y}[t[1]])
+        if t[0] == 'un' and t[1] == 'Not':
+            return int(not ev(t[2], a, q))
+        if t[0] == 'call':
+            last = t[1].split('::')[-1]
+            xs = [ev(x, a, q) for x in t[2]]
+            if last == 'div' and len(xs) == 2:
+                if xs[1] == 0:
+                    raise Stuck('division by zero')
+                return tdiv(xs[0], xs[1])
+            if last == 'rem' and len(xs) == 2:
+                return xs[0] - tdiv(xs[0], xs[1]) * xs[1]
+            if last in ('add', 'sub', 'mul') and len(xs) == 2:
+                return xs[0] + xs[1] if last == 'add' else (xs[0] - xs[1] if last == 'sub' else xs[0] * xs[1])
+            if last == 'neg' and len(xs) == 1:
+                return -xs[0]
+            if last == 'abs' and len(xs) == 1:
+                return abs(xs[0])
+            if last == 'signum' and len(xs) == 1:
+                return (xs[0] > 0) - (xs[0] < 0)
+            if last in ('one', 'zero') and not xs:
+                return 1 if last == 'one' else 0
+            if last in ('is_zero', 'is_negative', 'is_positive', 'is_one') and len(xs) == 1:
+                return int({'is_zero': xs[0] == 0, 'is_negative': xs[0] < 0, 'is_positive': xs[0] > 0, 'is_one': xs[0] == 1}[last])
+            if last in ('le', 'lt', 'ge', 'gt', 'eq', 'ne') and len(xs) == 2:
+                return int({'le': xs[0] <= xs[1], 'lt': xs[0] < xs[1], 'ge': xs[0] >= xs[1], 'gt': xs[0] > xs[1], 'eq': xs[0] == xs[1], 'ne': xs[0] != xs[1]}[last])
+        raise Stuck(sk(t)[:60])
+    try:
+        paths = [p for p in SymEx(b, max_paths=4000).run() if p.end == 'return' and p.ret is not None]
+    except Exception as ex:
+        rep.indet('E15.V1: %s' % str(ex)[:80])
+        return
+    bad = []
+    npts = 0
+    try:
+        for a in range(-9, 10):
+            for q in range(-7, 8):
+                if q == 0:
+                    continue
+                hits = []
+                for p in paths:
+                    ok = True
+                    for c in p.branches():
+                        if (c.name or '').startswith('assert:'):
+                            continue
+                        v = ev(c.term, a, q)
+                        if c.value == 'else':
+                            ok = ok and v not in tuple(c.args or ())
+                        else:
+                            ok = ok and v == c.value
+                        if not ok:
+                            break
+                    if ok:
+                        hits.append(ev(p.ret, a, q))
+                if len(set(hits)) != 1:
+                    raise Stuck('%d paths apply at (%d, %d)' % (len(hits), a, q))
+                r = hits[0]
+                npts += 1
+                d2 = 2 * abs(a - r * q)
+                away = abs(r) >= abs(tdiv(a, q)) + (1 if d2 == abs(q) else 0) if d2 == abs(q) else True
+                if d2 > abs(q) or not away:
+                    bad.append((a, q, r))
+    except Stuck as ex:
+        rep.indet('E15.V1: div_round outside the evaluated fragment: %s' % ex)
+        return
+    if bad:
+        a, q, r = bad[0]
+        rep.violation('E15.V1-nearest', inst,
+                      'div_round(%d, %d) is read as %d (|%d - %d*%d| = %d > |%d|/2, or a tie not rounded away from zero); %d of %d grid points are wrong' % (a, q, r, a, r, q, abs(a - r * q), q, len(bad), npts),
+                      where=b.where())
+    else:
+        rep.ok('E15.V1-nearest', inst, '%d grid points, %d paths' % (npts, len(paths)))
